@@ -48,6 +48,21 @@ WildcardRowsLive(c) ==
 TopologyRefsLive(c) ==
   \A t \in c.topo : \A r \in ToSet(t.refs) : \E s \in c.svcs : r = s.node \o "/" \o s.id
 
+\* ... and the rows are EXACT for sidecar proxies (updateMeshTopology / cleanupMeshTopology): a row (upstream, downstream)
+\* references exactly the proxy instances of that downstream service that declare the upstream.  Complete: every declared
+\* upstream of a local proxy instance is referenced.  Justified: a reference to an existing instance is to a proxy of the
+\* row's downstream that declares the row's upstream (a reference to a vanished instance is TopologyRefsLive's business;
+\* rows of ingress gateways carry no references).  Upstreams of type prepared_query are not part of the topology.
+Uid(s) == s.node \o "/" \o s.id
+DeclaredUps(s) == {u.name : u \in {u \in s.ups : ~u.pq}}
+TopologyRefsComplete(c) ==
+  \A s \in {s \in Local(c.svcs) : s.kind = "connect-proxy"} : \A u \in DeclaredUps(s) :
+     \E t \in c.topo : t.up = u /\ t.down = s.dest /\ Uid(s) \in ToSet(t.refs)
+TopologyRefsJustified(c) ==
+  \A t \in c.topo : \A r \in ToSet(t.refs) :
+     (\E s \in c.svcs : Uid(s) = r) =>
+        \E s \in c.svcs : Uid(s) = r /\ s.kind = "connect-proxy" /\ s.dest = t.down /\ t.up \in DeclaredUps(s)
+
 (* usage counters *)
 U(c, k) == IF k \in DOMAIN c.usage THEN c.usage[k] ELSE 0
 Kinds(c) == {s.kind : s \in Local(c.svcs)} \cup {"connect-proxy", "mesh-gateway", "terminating-gateway", "ingress-gateway", "api-gateway"}
